@@ -27,6 +27,16 @@ def handle : List String → String
       | some r => showOutcome r.outcome ++ " attempts=" ++ toString r.attempts ++ (if r.lastPooledCtxEnded then " ctx" else "")
       | none => "bad-op"
     | none => "bad-op"
+  | ["handoff", n, cap, k] =>
+    -- the schedule the harness enforces at the end of a dial (`Model.C08.Handoff.gateSchedule`), over the
+    -- regenerated statement order / wait facts: how many queued queries find no slot
+    match n.toNat?, cap.toNat?, k.toNat? with
+    | some n, some cap, some k =>
+      let rf := Gen.Facts.c08LazyEarlyReservesBeforeDone.getD false
+      let lw := Gen.Facts.c08LazyLateWaitsForEarly.getD false
+      let s := Model.C08.Handoff.run rf lw cap (Model.C08.Handoff.gateSchedule rf n k) (Model.C08.Handoff.init n cap)
+      "refused=" ++ toString s.refused
+    | _, _, _ => "bad-op"
   | _ => "bad-op"
 
 end Driver.C08
